@@ -54,6 +54,24 @@ pub proof fn lemma_dense_distinct(n: int, h: int, r1: int, c1: int, r2: int, c2:
     lemma_cell_distinct(64 * rww(n), r1, pad(n) + c1, r2, pad(n) + c2);
     lemma_word_index(h, 64 * rww(n), r1, pad(n) + c1);
 }
+pub proof fn lemma_new_all_zero(r: SparseBinaryMatrix)
+    requires sp_wf(r),
+             forall |p: int| 0 <= p < r.dense_elements@.len() ==> #[trigger] r.dense_elements@[p] == 0,
+             forall |k: int| 0 <= k < r.height ==> (#[trigger] r.sparse_elements@[k]).elements@.len() == 0,
+    ensures forall |i: int, j: int| sp_in(r, i, j) ==> !#[trigger] sp_cell(r, i, j),
+{
+    assert forall |i: int, j: int| sp_in(r, i, j) implies !#[trigger] sp_cell(r, i, j) by {
+        let pi = r.logical_row_to_physical@[i] as int;
+        if is_dense_col(r, j) {
+            let c = j - (r.width - r.num_dense_columns);
+            lemma_word_bounds(r.num_dense_columns as int, r.height as int, pi, c);
+            lemma_zero_bit(((pad(r.num_dense_columns as int) + c) % 64) as u64);
+        } else {
+            let v = r.sparse_elements@[pi];
+            assert(!v.elements@.contains(r.logical_col_to_physical@[j]));
+        }
+    }
+}
 pub open spec fn swap_idx(a: int, i: int, j: int) -> int { if a == i { j } else if a == j { i } else { a } }
 } // verus!
 '''
@@ -72,7 +90,7 @@ def build():
 #[verifier::external_body] pub struct ImmutableListMap { _p: () }
 ''', label='Octet::zero / one; opaque column index type')
     u.struct('src/sparse_vec.rs', 'SparseBinaryVec')
-    u.struct('src/sparse_matrix.rs', 'SparseBinaryMatrix', subst=[('    #[cfg(debug_assertions)]\n    debug_indexed_column_valid: Vec<bool>,\n', '')])
+    u.struct('src/sparse_matrix.rs', 'SparseBinaryMatrix', subst=[('    debug_indexed_column_valid: Vec<bool>,\n', '')])
     u.raw('} // verus!')
     u.raw(v_dense.SPEC.split('// the abstract matrix: cell (i, j) of a dense matrix')[0] + '\n} // verus!\n', label='rw / bit_of / <[T]>::swap spec (V-DENSE)')
     u.raw(DENSE_INDEX_LEMMAS, label='word-index lemmas of V-DENSE (pure arithmetic)')
@@ -96,6 +114,27 @@ fn verif_elem_insert(v: &mut Vec<SparseBinaryVec>, i: usize, a: usize, b: Octet)
             forall |k: u16| sv_has(final(v)@[i as int], k) == (if k == a as u16 { b.value != 0 } else { sv_has(old(v)@[i as int], k) }),
             forall |r: int| 0 <= r < old(v)@.len() && r != i ==> #[trigger] final(v)@[r] == old(v)@[r],
 { unimplemented!() }
+// rule S4: vec![SparseBinaryVec::with_capacity(10); n] -- n empty sparse rows
+#[verifier::external_body]
+fn verif_empty_rows(n: usize) -> (r: Vec<SparseBinaryVec>)
+    ensures r@.len() == n, forall |k: int| 0 <= k < n ==> (#[trigger] r@[k]).elements@.len() == 0,
+{ unimplemented!() }
+// rule S9: Vec<u32>::clone / Vec<u16>::clone copy the elements
+#[verifier::external_body]
+fn verif_clone_u32(v: &Vec<u32>) -> (r: Vec<u32>) ensures r@ == v@ { unimplemented!() }
+#[verifier::external_body]
+fn verif_clone_u16(v: &Vec<u16>) -> (r: Vec<u16>) ensures r@ == v@ { unimplemented!() }
+pub proof fn lemma_rww_formula(n: int)
+    requires 1 <= n < 65536,
+    ensures (n - 1) / 64 + 1 == rww(n), 1 <= rww(n) <= 1024,
+{
+    lemma_ceil_div_exact(n, 64);
+    lemma_fundamental_div_mod(n - 1, 64); lemma_fundamental_div_mod(n, 64); lemma_mod_bound(n - 1, 64); lemma_mod_bound(n, 64);
+    let q = (n - 1) / 64; let r = (n - 1) % 64;
+    if r == 63 { lemma_fundamental_div_mod_converse(n, 64, q + 1, 0); } else { lemma_fundamental_div_mod_converse(n, 64, q, r + 1); }
+    assert(q <= 1023) by { if q >= 1024 { assert(64 * q >= 65536) by (nonlinear_arith) requires q >= 1024; } }
+    lemma_div_pos_is_pos(n - 1, 64);
+}
 impl SparseBinaryMatrix {
 ''', label='model functions')
     v_sparse.helpers(u)
@@ -104,6 +143,27 @@ impl SparseBinaryMatrix {
          ensures=['r as int == col as int - (self.width as int - self.num_dense_columns as int)', 'r < self.num_dense_columns'])
     IMPLT = 'impl BinaryMatrix for SparseBinaryMatrix'
     DN = 'self.num_dense_columns as int'
+    u.fn('src/sparse_matrix.rs', 'new', impl=IMPLT, ret='r', rules=['A1'],
+         requires=['height < 16777216', 'width < 65536', 'trailing_dense_column_hint <= width'],
+         ensures=['sp_wf(r)', 'r.height == height && r.width == width && r.num_dense_columns == trailing_dense_column_hint && r.column_index_disabled',
+                  'forall |i: int, j: int| sp_in(r, i, j) ==> !#[trigger] sp_cell(r, i, j)'],
+         resubst=[(r'vec!\[SparseBinaryVec::with_capacity\(10\); (\w+)\]', r'verif_empty_rows(\1)', 'S4-vec-of-empty-rows'),
+                  (r'#\[cfg\(debug_assertions\)\]\s*debug_indexed_column_valid: vec!\[true; width\],', '', 'cfg-debug-assertions-dropped'),
+                  (r'let mut col_mapping = vec!\[0; width\];', 'let mut col_mapping: Vec<u16> = vec![0u16; width];', 'type-annotation'),
+                  (r'let mut row_mapping = vec!\[0; height\];', 'let mut row_mapping: Vec<u32> = vec![0u32; height];', 'type-annotation'),
+                  (r'vec!\[0; height \* \(\(trailing_dense_column_hint - 1\) / WORD_WIDTH \+ 1\)\]', 'vec![0u64; height * ((trailing_dense_column_hint - 1) / WORD_WIDTH + 1)]', 'type-annotation'),
+                  (r'row_mapping\[i\] = i as u32;', 'row_mapping.set(i, i as u32);', 'S8-index-assign'),
+                  (r'col_mapping\[i\] = i as u16;', 'col_mapping.set(i, i as u16);', 'S8-index-assign'),
+                  (r'logical_row_to_physical: row_mapping\.clone\(\),', 'logical_row_to_physical: verif_clone_u32(&row_mapping),', 'S9-vec-clone'),
+                  (r'logical_col_to_physical: col_mapping\.clone\(\),', 'logical_col_to_physical: verif_clone_u16(&col_mapping),', 'S9-vec-clone'),
+                  (r'(?s)(\n\s*)(SparseBinaryMatrix \{.*\})\s*\}\s*$', r'\1let verif_r = \2;\n proof { lemma_new_all_zero(verif_r); }\n verif_r\n}', 'bind-tail-expression')],
+         loops={0: 'invariant height < 16777216, row_mapping@.len() == height as int, forall |k: int| 0 <= k < i as int ==> #[trigger] row_mapping@[k] as int == k,',
+                1: 'invariant width < 65536, col_mapping@.len() == width as int, forall |k: int| 0 <= k < i as int ==> #[trigger] col_mapping@[k] as int == k,'},
+         inserts=[('let dense_elements = if trailing_dense_column_hint > 0 {', 'before',
+                   'proof { if trailing_dense_column_hint > 0 { lemma_rww_formula(trailing_dense_column_hint as int);'
+                   ' assert(height as int * rww(trailing_dense_column_hint as int) <= 16777216 * 1024) by (nonlinear_arith) requires 0 <= height as int <= 16777216, 0 <= rww(trailing_dense_column_hint as int) <= 1024; }'
+                   ' else { assert(rww(0) == 0) by { lemma_ceil_div_exact(0, 64); } assert(height as int * 0 == 0) by (nonlinear_arith); } }')],
+         append=None)
     u.fn('src/sparse_matrix.rs', 'get', impl=IMPLT, ret='r',
          requires=['sp_wf(*self)', 'sp_in(*self, i as int, j as int)'],
          ensures=['r.value == (if sp_cell(*self, i as int, j as int) { 1u8 } else { 0u8 })'],
